@@ -648,7 +648,9 @@ def monitor_history(ops, obs, elem_size=8):
         for e in o["ev"]:
             if e.startswith(BAD_EVENTS):
                 tg = ["C01", "C07", "C15"] if not e.startswith("badread") else ["C01", "C07", "C10", "C02"]
-                if f[0] in ("writeSlot", "uniqWrite") or (f[0] == "conv" and len(f) > 2 and f[2] == "assumeInit") or (f[0] == "create" and "ninit" in ops[i]):
+                if f[0] in ("writeSlot", "uniqWrite") or (f[0] == "conv" and len(f) > 2 and f[2] == "assumeInit") or (f[0] == "create" and "ninit" in ops[i]) \
+                        or (f[0] in ("iter", "create") and e.startswith("badread")):
+                    # (a constructor that ran a destructor on / read a slot it never wrote: the block was still uninitialised there)
                     tg = tg + ["C15"]          # a write into / retyping of an uninitialised handle touched a never-written slot
                 fails.append((i, tg, "event %s: a destroyed / never-written / freed value was touched" % e))
         for s in post.values():
